@@ -17,6 +17,8 @@ def cells(tier):
     out += make_cells(PID, 'atomic', tier, N=3, thin=plain, extra={'prehist': True}, suffix='after-roReplace')
     # ... and after a series of refused messages (what a non-strict collection merge leaves behind)
     out += make_cells(PID, 'atomic', tier, N=3, thin=plain, extra={'prefail': True}, suffix='after-refused-messages')
+    # ... and when every story was re-sent by a roStorySend before
+    out += make_cells(PID, 'atomic', tier, N=3, thin=plain, extra={'presend': True}, suffix='after-roStorySend-of-every-story')
     # messages whose messageID is not a number (or blank) and whose references all resolve: nothing has to be
     # reported, so nothing may raise half-way (messages of this kind that must be REPORTED are outside the claim:
     # the report text formats int(messageID), see DESIGN.md section 8)
